@@ -19,7 +19,9 @@ Reset == Ev.t = "reset" /\ seq' = Ev.seq /\ err' = "" /\ UNCHANGED <<alive, last
 Req == /\ Ev.t = "req" /\ seq' = Ev.n
        /\ IF Ev.outcome \in {"reply", "error"}
           THEN /\ Serve(Ev.outcome)
-               /\ IF Ev.framed /\ MustBeError(Ev.cmd, Ev.nargs) /\ Ev.outcome # "error"
+               \* (a request on a connection that earlier requests put into subscriber mode follows that mode's own rules:
+               \*  UNSUBSCRIBE without arguments is fine there, DM.GET is not - only "answered, and still serving" is judged)
+               /\ IF Ev.framed /\ ~Ev.stateful /\ MustBeError(Ev.cmd, Ev.nargs) /\ Ev.outcome # "error"
                   THEN Fail("malformed request answered with a success: " \o Ev.cmd)
                   ELSE IF ~Ev.pingok THEN Fail("the connection did not answer PING after " \o Ev.cmd)
                   ELSE IF ~Ev.otherok THEN Fail("the member stopped serving other connections after " \o Ev.cmd)
